@@ -43,6 +43,7 @@ func corpusUnions() []*modSpec {
 		mk("union-basic", "package models\n\ntype U interface{ isU() }\n\ntype A struct{ X int }\ntype B struct{ Y string }\ntype N int\n\nfunc (A) isU() {}\nfunc (B) isU() {}\nfunc (N) isU() {}\n\ntype S struct {\n\tV U\n\tL []U\n}\n"),
 		mk("union-pointer-receiver", "package models\n\ntype U interface{ isU() }\n\ntype A struct{ X int }\ntype P struct{ Y int }\n\nfunc (A) isU() {}\nfunc (*P) isU() {}\n\ntype S struct{ V U; Q P }\n"),
 		mk("union-two-unions-one-member", "package models\n\ntype U1 interface{ is1() }\ntype U2 interface{ is2() }\n\ntype A struct{ X int }\ntype B struct{ Y int }\n\nfunc (A) is1() {}\nfunc (A) is2() {}\nfunc (B) is2() {}\n\ntype S struct {\n\tV1 U1\n\tV2 U2\n}\n\ntype T struct{ Only U1 }\n"),
+		sameNamePackages(),
 		mk("union-not-analysed", "package models\n\ntype U1 interface{ is1() }\ntype U2 interface{ is2() }\n\ntype A struct{ X int }\n\nfunc (A) is1() {}\nfunc (A) is2() {}\n\ntype S struct{ V1 U1 }\n", modFile{"other.go", "package models\n\ntype Hidden struct{ V U2 }\n"}),
 		mk("union-through-alias", "package models\n\ntype U interface{ isU() }\n\ntype A struct{ X int }\n\nfunc (A) isU() {}\n\ntype AliasA = A\n\ntype S struct {\n\tDirect A\n\tVia AliasA\n\tV U\n}\n"),
 		mk("union-alias-first", "package models\n\ntype U interface{ isU() }\n\ntype A struct{ X int }\n\nfunc (A) isU() {}\n\ntype AliasA = A\n\ntype S struct {\n\tVia AliasA\n\tDirect A\n\tV U\n}\n"),
@@ -149,4 +150,15 @@ func corpusCrash() []*modSpec {
 		mk("table-without-columns", std, "models", "type S struct{}\n"),
 		mk("table-only-id", std, "models", "type S struct{ Id int64 }\n"),
 	}
+}
+
+// sameNamePackages: two imported packages share their package name (api/models, db/models); unions and enums of both are used.
+func sameNamePackages() *modSpec {
+	mk := func(name, src string, extra ...modFile) *modSpec {
+		return &modSpec{Name: name, ModPath: "example.com/org/models", Target: "models.go",
+			Files: append([]modFile{{"models.go", src}}, extra...)}
+	}
+	return mk("two-packages-with-one-name", "package models\n\nimport (\n\tapimodels \"example.com/org/models/api/models\"\n\tdbmodels \"example.com/org/models/db/models\"\n)\n\ntype Holder struct {\n\tShape apimodels.Shape\n\tLevel apimodels.Level\n\tPaint dbmodels.Paint\n\tState dbmodels.State\n}\n",
+		modFile{"api/models/models.go", "package models\n\nimport dbmodels \"example.com/org/models/db/models\"\n\ntype Shape interface{ isShape() }\ntype Circle struct{ R int }\ntype Square struct {\n\tS int\n\tP dbmodels.Paint\n}\n\nfunc (Circle) isShape() {}\nfunc (Square) isShape() {}\n\ntype Level int\n\nconst (\n\tLow Level = iota\n\tHigh\n)\n"},
+		modFile{"db/models/models.go", "package models\n\ntype Paint interface{ isPaint() }\ntype Oil struct{ V int }\ntype Water struct{ W string }\n\nfunc (Oil) isPaint() {}\nfunc (Water) isPaint() {}\n\ntype State string\n\nconst (\n\tOn State = \"on\"\n\tOff State = \"off\"\n)\n"})
 }
